@@ -443,6 +443,12 @@ func (fx *fnExec) cutLoop(lp *Loop, spec *LoopSpec) {
 		t := env.evalBool(cl)
 		fx.ex.assume(st, t)
 	}
+	for _, cl := range spec.Assumed {
+		env := fx.specEnv(st, fx.entry, lp)
+		env.loopEntry = fx.loopEntry[lp]
+		fx.ex.assume(st, env.evalBool(cl))
+		fx.ex.Dropped[fmt.Sprintf("assumed (not checked) at the head of loop %d of %s: %s", lp.Ordinal, fx.prefix, cl.Src)] = true
+	}
 	if fx.loopHeadSt == nil {
 		fx.loopHeadSt = map[*Loop]*State{}
 	}
@@ -816,7 +822,14 @@ func (fx *fnExec) oblige(name, kind string, st *State, goal *Term, pos token.Pos
 	if st.Reach.IsFalse() || ex.specDepth > 0 {
 		return
 	}
-	if ex.Partial[kind] || ex.Partial[kind+"."+src] {
+	partial := ex.Partial[kind] || ex.Partial[kind+"."+src]
+	for k := range ex.Partial {
+		// `partial pre:sub`: precondition obligations whose name mentions "sub"
+		if strings.HasPrefix(k, kind+":") && strings.Contains(name, k[len(kind)+1:]) {
+			partial = true
+		}
+	}
+	if partial {
 		// partial contract: this kind of obligation is assumed, not checked (listed in the evidence)
 		ex.Dropped["partial: "+kind+" obligations of "+ex.Unit+" are assumed, not checked"] = true
 		if kind == "nopanic" || kind == "pre" || kind == "assertcall" {
